@@ -474,9 +474,20 @@ def run_batch(modname, cases, deadline=None, max_failures=20, known=None, known_
     tally = Tally()
     failures = []
     herrs = []
+    gen_error = []
+
+    def guarded():
+        # an exception inside the case generator must not silently shorten the batch
+        try:
+            for c in cases:
+                yield (modname, c)
+        except Exception as e:
+            import traceback
+            gen_error.append("case generator failed: %r\n%s" % (e, traceback.format_exc()))
+
     ctx = multiprocessing.get_context("fork")
     with ctx.Pool(WORKERS, initializer=_init_worker) as pool:
-        it = pool.imap_unordered(_run_one, ((modname, c) for c in cases), chunksize=4)
+        it = pool.imap_unordered(_run_one, guarded(), chunksize=4)
         for case, res in it:
             if "harness_error" in res:
                 herrs.append((case, res["harness_error"]))
@@ -495,6 +506,8 @@ def run_batch(modname, cases, deadline=None, max_failures=20, known=None, known_
             if deadline and time.time() > deadline:
                 break
         pool.terminate()
+    for g in gen_error:
+        herrs.append(({"id": "generator"}, g))
     return tally, failures, herrs
 
 
